@@ -4,7 +4,7 @@ C17 — the invariant of reachable worlds.
 `Store/CopyLemmas.lean` proves what an operation does *relative to a set of objects* (`Good`).  The copy theorems
 need two facts about the world that is copied — every reference points into the world (`Closed w (· < |objs|)
 (· < |cells|)`, called `WF` in Props/C17.lean) and every watcher sits in the table of its own instance
-(`OwnWatchers`).  This file proves that every history whose operations name existing objects (`scoped`) keeps both,
+(`OwnWatchers`).  This file proves that every history whose operations name existing objects (`opsInWorld`) keeps both,
 starting from a world without objects: `step_inv`, `run_inv`.
 
 How: object references stay inside the world by `step_good` with the set of all objects; for list references and
@@ -271,5 +271,865 @@ theorem rel_updateDeps {B : Nat} {o : Nat} {attr : Option String} : ∀ (mds : L
       · have r4 := rel_setDyn (B := B) w3 o (fun d => insert d md.name dynw)
         exact (r123.trans r4).trans (rel_updateDeps rest _ (Nat.le_trans hB (r123.trans r4).lenC))
     · exact rel_updateDeps rest w hB
+
+/-! ### dispatch -/
+
+theorem rel_runCallback {B : Nat} {w : World} (cb : Option (Nat × Option String)) (hB : B ≤ w.cells.length) :
+    Rel B w (w.runCallback cb) := by
+  unfold World.runCallback
+  split
+  · exact Rel.refl _ _
+  · split
+    · exact rel_updateDeps _ w hB
+    · exact Rel.refl _ _
+
+theorem rel_invoke {B : Nat} {w w' : World} {wt : Watcher} {evs : List (String × Val × Val)}
+    {inv : Option (Nat × String)} (hB : B ≤ w.cells.length) (h : invoke w wt evs = (w', inv)) : Rel B w w' := by
+  unfold invoke at h
+  split at h
+  · simp at h; obtain ⟨rfl, _⟩ := h; exact rel_runCallback _ hB
+  · simp at h; obtain ⟨rfl, _⟩ := h; exact Rel.refl _ _
+
+theorem rel_logInv {B : Nat} (w : World) (inv : Option (Nat × String)) : Rel B w (w.logInv inv) := by
+  cases inv with
+  | none => exact Rel.refl _ _
+  | some e => exact Rel.of_objs rfl (Nat.le_refl _)
+
+theorem rel_dispatch {B : Nat} {p : String} {old new : Val} : ∀ (ws : List Watcher) (w : World),
+    B ≤ w.cells.length → Rel B w (dispatch w p old new ws)
+  | [], w, _ => by simp only [dispatch]; exact Rel.refl _ _
+  | wt :: rest, w, hB => by
+    simp only [dispatch]
+    split
+    · exact rel_dispatch rest w hB
+    · generalize hi : invoke w wt [(p, old, new)] = r
+      obtain ⟨w1, inv⟩ := r
+      have r1 := rel_invoke (B := B) hB hi
+      simp only
+      have r12 := r1.trans (rel_logInv w1 inv)
+      exact r12.trans (rel_dispatch rest _ (Nat.le_trans hB r12.lenC))
+
+theorem rel_flush {B : Nat} {evs : List (String × Val × Val)} : ∀ (ws : List Watcher) (w : World),
+    B ≤ w.cells.length → Rel B w (flush w evs ws)
+  | [], w, _ => by simp only [flush]; exact Rel.refl _ _
+  | wt :: rest, w, hB => by
+    simp only [flush]
+    generalize hi : invoke w wt _ = r
+    obtain ⟨w1, inv⟩ := r
+    have r1 := rel_invoke (B := B) hB hi
+    simp only
+    have r12 := r1.trans (rel_logInv w1 inv)
+    exact r12.trans (rel_flush rest _ (Nat.le_trans hB r12.lenC))
+
+/-! ### the operations -/
+
+theorem rel_evalArg {B : Nat} {w w' : World} {a : Arg} {v : Val} (hB : B ≤ w.cells.length)
+    (h : evalArg w a = (v, w')) : Rel B w w' ∧ ∀ c, v = .cell c → B ≤ c ∧ c < w'.cells.length := by
+  cases a with
+  | none => simp [evalArg] at h; obtain ⟨rfl, rfl⟩ := h; exact ⟨Rel.refl _ _, by simp⟩
+  | int n => simp [evalArg] at h; obtain ⟨rfl, rfl⟩ := h; exact ⟨Rel.refl _ _, by simp⟩
+  | obj o => simp [evalArg] at h; obtain ⟨rfl, rfl⟩ := h; exact ⟨Rel.refl _ _, by simp⟩
+  | newList l =>
+    simp [evalArg] at h; obtain ⟨rfl, rfl⟩ := h
+    refine ⟨Rel.of_objs rfl (by simp), ?_⟩
+    intro c hc
+    simp at hc; subst hc
+    simp; exact hB
+
+theorem rel_ensureInObjects {B : Nat} {w w' : World} {o : Nat} {p : String} {v : Val}
+    (h : w.ensureInObjects o p v = some w') : Rel B w w' := by
+  unfold World.ensureInObjects at h
+  split at h
+  · simp at h
+  · split at h
+    · simp at h; subst h; exact Rel.refl _ _
+    · simp at h
+    · split at h
+      · split at h
+        · simp at h; subst h; exact Rel.refl _ _
+        · simp at h; subst h; exact Rel.of_objs rfl (by simp)
+      · simp at h
+
+/-- storing a value that is no list, or a list created by this operation -/
+theorem rel_setValue {B : Nat} (w : World) (o : Nat) (p : String) {v : Val}
+    (hv : ∀ c, v = .cell c → B ≤ c ∧ c < w.cells.length) :
+    Rel B w (w.setObj o fun ob => { ob with values := insert ob.values p v }) := by
+  refine rel_setObj ?_ (fun ob _ wt hw => Or.inr hw)
+  intro ob _ c hc
+  rcases hasCell_values_insert hc with h | h
+  · exact Or.inl h
+  · exact Or.inr (hv c h)
+
+theorem rel_doSet {B : Nat} {w w' : World} {o : Nat} {p : String} {a : Arg} (hB : B ≤ w.cells.length)
+    (h : doSet w o p a = .ok w') : Rel B w w' := by
+  unfold doSet at h
+  split at h
+  · simp at h
+  · split at h
+    · simp at h
+    · rename_i c _
+      split at h
+      · generalize hev : evalArg w a = r at h
+        obtain ⟨v, w1⟩ := r
+        obtain ⟨r1, hv⟩ := rel_evalArg (B := B) hB hev
+        simp only at h
+        have r2 := rel_touchParam (B := B) (w := w1) o p (Nat.le_trans hB r1.lenC)
+        split at h
+        · rename_i old w2 _ hens
+          have r2' := rel_ensureInObjects (B := B) hens
+          have r012 := (r1.trans r2).trans r2'
+          have r3 := rel_setValue (B := B) w2 o p (v := v)
+            (fun c hc => ⟨(hv c hc).1, Nat.lt_of_lt_of_le (hv c hc).2 (r2.trans r2').lenC⟩)
+          have r0123 := r012.trans r3
+          have r4 := rel_updateDeps (B := B) (o := o) (attr := some p) c.methods _ (Nat.le_trans hB r0123.lenC)
+          simp at h
+          subst h
+          exact (r0123.trans r4).trans (rel_dispatch _ _ (Nat.le_trans hB (r0123.trans r4).lenC))
+        · simp at h
+      · simp at h
+
+theorem rel_updateOne {B : Nat} {w w' : World} {o : Nat} {c : ClassDef} {p : String} {a : Arg}
+    {evs evs' : List (String × Val × Val)} {q q' : List Watcher} (hB : B ≤ w.cells.length)
+    (h : updateOne w o c p a evs q = some (w', evs', q')) : Rel B w w' := by
+  unfold updateOne at h
+  split at h
+  · generalize hev : evalArg w a = r at h
+    obtain ⟨v, w1⟩ := r
+    obtain ⟨r1, hv⟩ := rel_evalArg (B := B) hB hev
+    simp only at h
+    have r2 := rel_touchParam (B := B) (w := w1) o p (Nat.le_trans hB r1.lenC)
+    split at h
+    · rename_i old w2 _ hens
+      have r2' := rel_ensureInObjects (B := B) hens
+      have r012 := (r1.trans r2).trans r2'
+      have r3 := rel_setValue (B := B) w2 o p (v := v)
+        (fun c hc => ⟨(hv c hc).1, Nat.lt_of_lt_of_le (hv c hc).2 (r2.trans r2').lenC⟩)
+      have r0123 := r012.trans r3
+      have r4 := rel_updateDeps (B := B) (o := o) (attr := some p) c.methods _ (Nat.le_trans hB r0123.lenC)
+      split at h
+      · simp at h; obtain ⟨rfl, _, _⟩ := h; exact r0123.trans r4
+      · simp at h; obtain ⟨rfl, _, _⟩ := h; exact r0123.trans r4
+    · simp at h
+  · simp at h
+
+theorem rel_updateLoop {B : Nat} {o : Nat} {c : ClassDef} :
+    ∀ (kvs : List (String × Arg)) (w w' : World) (evs evs' : List (String × Val × Val)) (q q' : List Watcher),
+    B ≤ w.cells.length → updateLoop w o c kvs evs q = some (w', evs', q') → Rel B w w'
+  | [], w, w', evs, evs', q, q', _, h => by
+    simp [updateLoop] at h; obtain ⟨rfl, _, _⟩ := h; exact Rel.refl _ _
+  | (p, a) :: rest, w, w', evs, evs', q, q', hB, h => by
+    simp only [updateLoop] at h
+    split at h
+    · rename_i w1 evs1 q1 h1
+      have r1 := rel_updateOne (B := B) hB h1
+      exact r1.trans (rel_updateLoop rest w1 w' evs1 evs' q1 q' (Nat.le_trans hB r1.lenC) h)
+    · simp at h
+
+theorem rel_doUpdate {B : Nat} {w w' : World} {o : Nat} {kvs : List (String × Arg)} (hB : B ≤ w.cells.length)
+    (h : doUpdate w o kvs = .ok w') : Rel B w w' := by
+  unfold doUpdate at h
+  split at h
+  · simp at h
+  · rename_i c _
+    split at h
+    · simp at h
+    · rename_i w1 evs queued hl
+      simp at h; subst h
+      have r1 := rel_updateLoop (B := B) (c := c) kvs w w1 [] evs [] queued hB hl
+      exact r1.trans (rel_flush _ _ (Nat.le_trans hB r1.lenC))
+
+theorem rel_doSelAdd {B : Nat} {w w' : World} {o : Nat} {p : String} {n : Int} (hB : B ≤ w.cells.length)
+    (h : doSelAdd w o p n = .ok w') : Rel B w w' := by
+  unfold doSelAdd at h
+  have r1 := rel_touchParam (B := B) o p hB
+  cases hl : ((w.touchParam o p).objs[o]?).bind (fun ob => lookup ob.pcopies p) with
+  | none => simp [hl] at h
+  | some pc =>
+    simp only [hl] at h
+    split at h
+    · split at h
+      · split at h
+        · simp at h; subst h; exact r1
+        · simp at h; subst h
+          exact r1.trans (Rel.of_objs rfl (by simp))
+      · simp at h
+    · simp at h
+
+theorem rel_doMutate {B : Nat} {w w' : World} {o : Nat} {p : String} {n : Int}
+    (h : doMutate w o p n = .ok w') : Rel B w w' := by
+  unfold doMutate at h
+  split at h
+  · simp at h; subst h; exact Rel.of_objs rfl (by simp)
+  · simp at h
+
+/-- replacing a Parameter copy by one with the same containers -/
+theorem rel_setPCopy {B : Nat} (w : World) (o : Nat) (p : String) {pc pc' : PCopy}
+    (hl : (w.objs[o]?).bind (fun ob => lookup ob.pcopies p) = some pc) (hs : pc'.slots = pc.slots) :
+    Rel B w (w.setObj o fun ob => { ob with pcopies := insert ob.pcopies p pc' }) := by
+  refine rel_setObj ?_ (fun ob _ wt hw => Or.inr hw)
+  intro ob hob c hc
+  rcases hasCell_pcopies_insert hc with h | ⟨s, hs', hcs⟩
+  · exact Or.inl h
+  · simp only [hob, Option.bind_some] at hl
+    exact Or.inl (Or.inr (Or.inr ⟨_, lookup_mem hl, s, by rw [← hs, hs'], hcs⟩))
+
+theorem rel_doPEdit {B : Nat} {w w' : World} {o : Nat} {p : String} {e : PEdit} (hB : B ≤ w.cells.length)
+    (h : doPEdit w o p e = .ok w') : Rel B w w' := by
+  unfold doPEdit at h
+  have r1 := rel_touchParam (B := B) o p hB
+  cases hl : ((w.touchParam o p).objs[o]?).bind (fun ob => lookup ob.pcopies p) with
+  | none => simp [hl] at h
+  | some pc =>
+    simp only [hl] at h
+    cases e with
+    | bounds b =>
+      simp only at h
+      have r2 := rel_setPCopy (B := B) (w.touchParam o p) o p (pc' := { pc with bounds := b }) hl rfl
+      split at h
+      · simp at h; subst h; exact r1.trans r2
+      · simp at h; subst h
+        exact (r1.trans r2).trans (Rel.of_objs rfl (Nat.le_refl _))
+    | constant b =>
+      simp at h; subst h
+      exact r1.trans (rel_setPCopy (B := B) (w.touchParam o p) o p (pc' := { pc with constant := b }) hl rfl)
+
+theorem rel_doSetAttr {B : Nat} {w w' : World} {o : Nat} {name : String} {a : Arg} (hB : B ≤ w.cells.length)
+    (h : doSetAttr w o name a = .ok w') : Rel B w w' := by
+  unfold doSetAttr at h
+  split at h
+  · simp at h
+  · generalize hev : evalArg w a = r at h
+    obtain ⟨v, w1⟩ := r
+    obtain ⟨r1, hv⟩ := rel_evalArg (B := B) hB hev
+    simp at h; subst h
+    refine r1.trans (rel_setObj ?_ (fun ob _ wt hw => Or.inr hw))
+    intro ob _ c hc
+    rcases hasCell_attrs_insert hc with h | h
+    · exact Or.inl h
+    · exact Or.inr (hv c h)
+
+theorem rel_doMutAttr {B : Nat} {w w' : World} {o : Nat} {name : String} {n : Int}
+    (h : doMutAttr w o name n = .ok w') : Rel B w w' := by
+  unfold doMutAttr at h
+  split at h
+  · simp at h; subst h; exact Rel.of_objs rfl (by simp)
+  · simp at h
+
+theorem rel_doWatch {B : Nat} {w w' : World} {o t : Nat} {p : List String} {cb : String}
+    (h : doWatch w o p t cb = .ok w') : Rel B w w' := by
+  unfold doWatch at h
+  split at h
+  · split at h
+    · simp at h; subst h
+      exact (Rel.of_objs (B := B) (w := w) (w' := { w with nextPid := w.nextPid + 1 }) rfl (Nat.le_refl _)).trans (rel_addWatcher _ _)
+    · simp at h
+  · simp at h
+
+theorem rel_doWatchPartial {B : Nat} {w w' : World} {o t : Nat} {p cb : String}
+    (h : doWatchPartial w o p t cb = .ok w') : Rel B w w' := by
+  unfold doWatchPartial at h
+  split at h
+  · split at h
+    · simp at h; subst h
+      exact (Rel.of_objs (B := B) (w := w) (w' := { w with nextPid := w.nextPid + 1 }) rfl (Nat.le_refl _)).trans (rel_addWatcher _ _)
+    · simp at h
+  · simp at h
+
+theorem rel_doWatchSlot {B : Nat} {w w' : World} {o t : Nat} {p cb : String} (hB : B ≤ w.cells.length)
+    (h : doWatchSlot w o p t cb = .ok w') : Rel B w w' := by
+  unfold doWatchSlot at h
+  have r1 := rel_touchParam (B := B) o p hB
+  simp only at h
+  cases hl : ((w.touchParam o p).objs[o]?).bind (fun ob => lookup ob.pcopies p) with
+  | none => simp [hl] at h
+  | some pc =>
+    cases htt : (w.touchParam o p).objs[t]? with
+    | none => simp [hl, htt] at h
+    | some tt =>
+      simp only [hl, htt] at h
+      split at h
+      · simp at h; subst h
+        have r2 : Rel B (w.touchParam o p) { (w.touchParam o p) with nextPid := (w.touchParam o p).nextPid + 1 } :=
+          Rel.of_objs rfl (Nat.le_refl _)
+        refine (r1.trans r2).trans ?_
+        exact rel_setPCopy (B := B) { (w.touchParam o p) with nextPid := (w.touchParam o p).nextPid + 1 } o p hl rfl
+      · simp at h
+
+/-- every operation other than a construction -/
+theorem rel_step {w w' : World} {op : Op} (hnew : ∀ cls kw, op ≠ .new cls kw) (h : step w op = .ok w') :
+    Rel w.cells.length w w' := by
+  have hB := Nat.le_refl w.cells.length
+  cases op with
+  | new cls kw => exact absurd rfl (hnew cls kw)
+  | set o p a => exact rel_doSet hB h
+  | mutate o p n => exact rel_doMutate h
+  | pedit o p e => exact rel_doPEdit hB h
+  | setAttr o name a => exact rel_doSetAttr hB h
+  | mutAttr o name n => exact rel_doMutAttr h
+  | watch o p t cb => exact rel_doWatch h
+  | selAdd o p n => exact rel_doSelAdd hB h
+  | watchPartial o p t cb => exact rel_doWatchPartial h
+  | watchSlot o p t cb => exact rel_doWatchSlot hB h
+  | update o kvs => exact rel_doUpdate hB h
+
+/-! ## The invariant -/
+
+/-- every list a record refers to exists -/
+def CellsBounded (w : World) : Prop :=
+  ∀ (i : Nat) (ob : Obj), w.objs[i]? = some ob → ∀ c, ob.hasCell c → c < w.cells.length
+
+/-- the invariant of the worlds a history reaches: every object reference (values, attributes, watchers, callers,
+callbacks) names an existing object, every list reference an existing list, and every watcher sits in the table of
+its own instance -/
+structure WInv (w : World) : Prop where
+  objsIn : Closed w (fun o => o < w.objs.length) (fun _ => True)
+  cellsIn : CellsBounded w
+  own : OwnWatchers w
+
+theorem Val.inSets_mono {S S' C C' : Nat → Prop} (hS : ∀ o, S o → S' o) (hC : ∀ c, C c → C' c) {v : Val}
+    (h : v.inSets S C) : v.inSets S' C' := by
+  cases v with
+  | none => trivial
+  | int n => trivial
+  | cell c => exact hC c h
+  | obj o => exact hS o h
+
+theorem Watcher.inSet_mono {S S' : Nat → Prop} (hS : ∀ o, S o → S' o) {wt : Watcher} (h : wt.inSet S) :
+    wt.inSet S' := ⟨hS _ h.1, hS _ h.2.1, fun cb hcb => hS _ (h.2.2 cb hcb)⟩
+
+theorem Obj.refsIn_mono {S S' C C' : Nat → Prop} (hS : ∀ o, S o → S' o) (hC : ∀ c, C c → C' c) {ob : Obj}
+    (h : ob.refsIn S C) : ob.refsIn S' C' :=
+  ⟨fun kv hkv => Val.inSets_mono hS hC (h.values kv hkv), fun kv hkv => Val.inSets_mono hS hC (h.attrs kv hkv),
+   fun kv hkv wt hwt => Watcher.inSet_mono hS (h.watchers kv hkv wt hwt),
+   fun kv hkv wt hwt => Watcher.inSet_mono hS (h.dyn kv hkv wt hwt),
+   fun kv hkv => ⟨fun s hs => ⟨hC _ ((h.pcopies kv hkv).1 s hs).1, hC _ ((h.pcopies kv hkv).1 s hs).2⟩,
+     fun wt hwt => Watcher.inSet_mono hS ((h.pcopies kv hkv).2 wt hwt)⟩⟩
+
+/-- the invariant gives the well-formedness the copy theorems ask for -/
+theorem WInv.wf {w : World} (h : WInv w) :
+    Closed w (fun o => o < w.objs.length) (fun c => c < w.cells.length) := by
+  intro i ob hi hob
+  have r := h.objsIn i ob hi hob
+  have hv : ∀ v : Val, v.inSets (fun o => o < w.objs.length) (fun _ => True) →
+      (∀ c, v = .cell c → c < w.cells.length) → v.inSets (fun o => o < w.objs.length) (fun c => c < w.cells.length) := by
+    intro v h1 h2
+    cases v with
+    | none => trivial
+    | int n => trivial
+    | cell c => exact h2 c rfl
+    | obj o => exact h1
+  refine ⟨fun kv hkv => hv _ (r.values kv hkv) (fun c hc => h.cellsIn i ob hob c (Or.inl ⟨kv, hkv, hc⟩)),
+    fun kv hkv => hv _ (r.attrs kv hkv) (fun c hc => h.cellsIn i ob hob c (Or.inr (Or.inl ⟨kv, hkv, hc⟩))),
+    r.watchers, r.dyn, fun kv hkv => ⟨fun s hs => ?_, (r.pcopies kv hkv).2⟩⟩
+  exact ⟨h.cellsIn i ob hob s.1 (Or.inr (Or.inr ⟨kv, hkv, s, hs, Or.inl rfl⟩)),
+         h.cellsIn i ob hob s.2 (Or.inr (Or.inr ⟨kv, hkv, s, hs, Or.inr rfl⟩))⟩
+
+/-- a world without objects satisfies the invariant -/
+theorem WInv.empty {w : World} (h : w.objs = []) : WInv w :=
+  ⟨fun i ob _ hob => by simp [h] at hob, fun i ob hob => by simp [h] at hob, fun i ob hob => by simp [h] at hob⟩
+
+/-- one operation's worth of `Good` (for the set of all objects) and `Rel` carries the invariant over -/
+theorem WInv.carry {w w' : World} (h : WInv w)
+    (g : Closed w' (fun o => o < w.objs.length) (fun _ => True)) (r : Rel w.cells.length w w') : WInv w' := by
+  refine ⟨?_, ?_, ?_⟩
+  · rw [r.lenO]; exact g
+  · intro i ob' hob' c hc
+    obtain ⟨ob, hob, h1, _⟩ := r.objs i ob' hob'
+    rcases h1 c hc with h2 | h2
+    · exact Nat.lt_of_lt_of_le (h.cellsIn i ob hob c h2) r.lenC
+    · exact h2.2
+  · intro i ob' hob' kv hkv wt hwt
+    obtain ⟨ob, hob, _, h2⟩ := r.objs i ob' hob'
+    rcases h2 wt ⟨kv, hkv, hwt⟩ with h3 | ⟨kv0, hkv0, hwt0⟩
+    · exact h3
+    · exact h.own i ob hob kv0 hkv0 wt hwt0
+
+/-- an operation names existing objects only -/
+def Op.inWorld (w : World) : Op → Prop
+  | .new _ kwargs => ∀ kv ∈ kwargs, ∀ o, kv.2 = Arg.obj o → o < w.objs.length
+  | op => op.inSets w (fun o => o < w.objs.length) (fun _ => True)
+
+theorem initValues_spec {n : Nat} : ∀ (ds : List ParamDef) (w w1 : World) (vals vals' : List (String × Val)),
+    initValues w ds vals = (vals', w1) →
+    (∀ kv ∈ vals, kv.2.inSets (fun o => o < n) (fun c => c < w.cells.length)) →
+    w1.objs = w.objs ∧ w1.classes = w.classes ∧ w.cells.length ≤ w1.cells.length ∧
+    ∀ kv ∈ vals', kv.2.inSets (fun o => o < n) (fun c => c < w1.cells.length)
+  | [], w, w1, vals, vals', h, hv => by
+    simp [initValues] at h; obtain ⟨rfl, rfl⟩ := h; exact ⟨rfl, rfl, Nat.le_refl _, hv⟩
+  | d :: ds, w, w1, vals, vals', h, hv => by
+    simp only [initValues] at h
+    split at h
+    · split at h
+      · refine initValues_spec ds w w1 _ vals' h ?_
+        intro kv hkv
+        rcases mem_insert hkv with rfl | hm
+        · trivial
+        · exact hv kv hm
+      · refine initValues_spec ds w w1 _ vals' h ?_
+        intro kv hkv
+        rcases mem_insert hkv with rfl | hm
+        · trivial
+        · exact hv kv hm
+      · rename_i l _
+        obtain ⟨h1, h2, h3, h4⟩ := initValues_spec ds { w with cells := w.cells ++ [l] } w1 _ vals' h (by
+          intro kv hkv
+          rcases mem_insert hkv with rfl | hm
+          · show w.cells.length < (w.cells ++ [l]).length; simp
+          · exact Val.inSets_mono (fun _ h => h) (fun c (hc : c < w.cells.length) => by
+              show c < (w.cells ++ [l]).length; simp; omega) (hv kv hm))
+        refine ⟨h1, h2, ?_, h4⟩
+        have : (w.cells ++ [l]).length ≤ w1.cells.length := h3
+        simp at this; omega
+    · exact initValues_spec ds w w1 vals vals' h hv
+
+theorem evalKwargs_spec {n : Nat} : ∀ (kws : List (String × Arg)) (w w1 : World) (vals vals' : List (String × Val)),
+    evalKwargs w kws vals = (vals', w1) → (∀ kv ∈ kws, ∀ o, kv.2 = Arg.obj o → o < n) →
+    (∀ kv ∈ vals, kv.2.inSets (fun o => o < n) (fun c => c < w.cells.length)) →
+    w1.objs = w.objs ∧ w1.classes = w.classes ∧ w.cells.length ≤ w1.cells.length ∧
+    ∀ kv ∈ vals', kv.2.inSets (fun o => o < n) (fun c => c < w1.cells.length)
+  | [], w, w1, vals, vals', h, _, hv => by
+    simp [evalKwargs] at h; obtain ⟨rfl, rfl⟩ := h; exact ⟨rfl, rfl, Nat.le_refl _, hv⟩
+  | (p, a) :: rest, w, w1, vals, vals', h, hk, hv => by
+    simp only [evalKwargs] at h
+    have hrest : ∀ kv ∈ rest, ∀ o, kv.2 = Arg.obj o → o < n := fun kv hkv => hk kv (by simp [hkv])
+    cases a with
+    | none =>
+      simp only [evalArg] at h
+      exact evalKwargs_spec rest w w1 _ vals' h hrest (fun kv hkv => by
+        rcases mem_insert hkv with rfl | hm
+        · trivial
+        · exact hv kv hm)
+    | int m =>
+      simp only [evalArg] at h
+      exact evalKwargs_spec rest w w1 _ vals' h hrest (fun kv hkv => by
+        rcases mem_insert hkv with rfl | hm
+        · trivial
+        · exact hv kv hm)
+    | obj o =>
+      simp only [evalArg] at h
+      exact evalKwargs_spec rest w w1 _ vals' h hrest (fun kv hkv => by
+        rcases mem_insert hkv with rfl | hm
+        · exact hk (p, .obj o) (by simp) o rfl
+        · exact hv kv hm)
+    | newList l =>
+      simp only [evalArg] at h
+      obtain ⟨h1, h2, h3, h4⟩ := evalKwargs_spec rest { w with cells := w.cells ++ [l] } w1 _ vals' h hrest (by
+        intro kv hkv
+        rcases mem_insert hkv with rfl | hm
+        · show w.cells.length < (w.cells ++ [l]).length; simp
+        · exact Val.inSets_mono (fun _ h => h) (fun c (hc : c < w.cells.length) => by
+            show c < (w.cells ++ [l]).length; simp; omega) (hv kv hm))
+      refine ⟨h1, h2, ?_, h4⟩
+      have : (w.cells ++ [l]).length ≤ w1.cells.length := h3
+      simp at this; omega
+
+/-- `Cls(**kwargs)` with keyword objects that exist keeps the invariant -/
+theorem doNew_inv {w w' : World} {cls : Nat} {kwargs : List (String × Arg)} (hi : WInv w)
+    (hk : ∀ kv ∈ kwargs, ∀ o, kv.2 = Arg.obj o → o < w.objs.length) (h : doNew w cls kwargs = .ok w') : WInv w' := by
+  unfold doNew at h
+  split at h
+  · simp at h
+  · rename_i c _
+    split at h
+    · generalize hiv : initValues w c.params [] = r1 at h
+      obtain ⟨vals0, w1⟩ := r1
+      obtain ⟨ho1, _, hl1, hv1⟩ := initValues_spec (n := w.objs.length) _ _ _ _ _ hiv (by simp)
+      simp only at h
+      generalize hek : evalKwargs w1 kwargs vals0 = r2 at h
+      obtain ⟨vals, w2⟩ := r2
+      obtain ⟨ho2, _, hl2, hv2⟩ := evalKwargs_spec (n := w.objs.length) _ _ _ _ _ hek hk hv1
+      simp at h
+      have hobjs : w2.objs = w.objs := by rw [ho2, ho1]
+      have hlen : w.cells.length ≤ w2.cells.length := Nat.le_trans hl1 hl2
+      -- the world with the new, still unwatched, object
+      have hi3 : WInv { w2 with objs := w2.objs ++ [({ cls := cls, values := vals, pcopies := [], attrs := [], watchers := [], dyn := [] } : Obj)] } := by
+        have hcase : ∀ (i : Nat) (ob : Obj), (w2.objs ++ [({ cls := cls, values := vals, pcopies := [], attrs := [], watchers := [], dyn := [] } : Obj)])[i]? = some ob →
+            w.objs[i]? = some ob ∨ (i = w.objs.length ∧ ob = { cls := cls, values := vals, pcopies := [], attrs := [], watchers := [], dyn := [] }) := by
+          intro i ob hob
+          rw [hobjs] at hob
+          rcases Nat.lt_or_ge i w.objs.length with hlt | hge
+          · rw [List.getElem?_append_left hlt] at hob; exact Or.inl hob
+          · rw [List.getElem?_append_right hge] at hob
+            cases hd : i - w.objs.length with
+            | zero => simp [hd] at hob; exact Or.inr ⟨by omega, hob.symm⟩
+            | succ k => simp [hd] at hob
+        refine ⟨?_, ?_, ?_⟩
+        · intro i ob _ hob
+          rcases hcase i ob hob with h1 | ⟨_, rfl⟩
+          · have hlt : i < w.objs.length := by
+              rcases Nat.lt_or_ge i w.objs.length with h2 | h2
+              · exact h2
+              · rw [List.getElem?_eq_none h2] at h1; simp at h1
+            exact Obj.refsIn_mono (fun o (ho : o < w.objs.length) => by
+              show o < (w2.objs ++ [_]).length; simp [hobjs]; omega) (fun _ _ => trivial) (hi.objsIn i ob hlt h1)
+          · refine ⟨fun kv hkv => ?_, by simp, by simp, by simp, by simp⟩
+            exact Val.inSets_mono (fun o (ho : o < w.objs.length) => by
+              show o < (w2.objs ++ [_]).length; simp [hobjs]; omega) (fun _ _ => trivial) (hv2 kv hkv)
+        · intro i ob hob c hc
+          rcases hcase i ob hob with h1 | ⟨_, rfl⟩
+          · exact Nat.lt_of_lt_of_le (hi.cellsIn i ob h1 c hc) hlen
+          · rcases hc with ⟨kv, hkv, hcv⟩ | ⟨kv, hkv, _⟩ | ⟨kv, hkv, _⟩
+            · have := hv2 kv hkv
+              rw [hcv] at this; exact this
+            · simp at hkv
+            · simp at hkv
+        · intro i ob hob kv hkv wt hwt
+          rcases hcase i ob hob with h1 | ⟨_, rfl⟩
+          · exact hi.own i ob h1 kv hkv wt hwt
+          · simp at hkv
+      subst h
+      have hlen3 : ({ w2 with objs := w2.objs ++ [({ cls := cls, values := vals, pcopies := [], attrs := [], watchers := [], dyn := [] } : Obj)] } : World).objs.length = w2.objs.length + 1 := by
+        simp
+      have g := initDeps_good (S := fun o => o < ({ w2 with objs := w2.objs ++ [({ cls := cls, values := vals, pcopies := [], attrs := [], watchers := [], dyn := [] } : Obj)] } : World).objs.length)
+        (C := fun _ => True) (o := w2.objs.length) (by rw [hlen3]; exact Nat.lt_succ_self _) c.methods _ hi3.objsIn (fun _ _ => trivial)
+      exact hi3.carry g.closed (rel_initDeps _ _ (Nat.le_refl _))
+    · simp at h
+
+/-- **the invariant is preserved** by every operation that names existing objects -/
+theorem step_inv {w w' : World} {op : Op} (hi : WInv w) (hs : op.inWorld w) (h : step w op = .ok w') : WInv w' := by
+  by_cases hnew : ∃ cls kw, op = .new cls kw
+  · obtain ⟨cls, kw, rfl⟩ := hnew
+    exact doNew_inv hi hs h
+  · have hn : ∀ cls kw, op ≠ .new cls kw := fun cls kw e => hnew ⟨cls, kw, e⟩
+    have hs' : op.inSets w (fun o => o < w.objs.length) (fun _ => True) := by
+      cases op with
+      | new cls kw => exact absurd rfl (hn cls kw)
+      | _ => exact hs
+    exact hi.carry (step_good hi.objsIn (fun _ _ => trivial) hs' h).closed (rel_step hn h)
+
+/-- a history every operation of which names objects existing at its time -/
+def opsInWorld : World → List Op → Prop
+  | _, [] => True
+  | w, op :: rest => op.inWorld w ∧ match step w op with
+    | .ok w1 => opsInWorld w1 rest
+    | .error _ => True
+
+/-- **every world a scoped history reaches satisfies the invariant** -/
+theorem run_inv : ∀ (ops : List Op) (w w' : World), WInv w → opsInWorld w ops → runOps w ops = .ok w' → WInv w'
+  | [], w, w', hi, _, h => by simp [runOps] at h; subst h; exact hi
+  | op :: rest, w, w', hi, hs, h => by
+    simp only [runOps] at h
+    simp only [opsInWorld] at hs
+    cases hst : step w op with
+    | error e => simp [hst] at h
+    | ok w1 =>
+      simp only [hst] at h hs
+      exact run_inv rest w1 w' (step_inv hi hs.1 hst) hs.2 h
+
+/-! ## After the copy: two sides that evolve independently, in any interleaving -/
+
+theorem refsIn_hasCell {S C : Nat → Prop} {ob : Obj} {c : Nat} (h : ob.refsIn S C) (hc : ob.hasCell c) : C c := by
+  rcases hc with ⟨kv, hkv, hv⟩ | ⟨kv, hkv, hv⟩ | ⟨kv, hkv, s, hs, hcs⟩
+  · have := h.values kv hkv; rw [hv] at this; exact this
+  · have := h.attrs kv hkv; rw [hv] at this; exact this
+  · rcases hcs with rfl | rfl
+    · exact ((h.pcopies kv hkv).1 s hs).1
+    · exact ((h.pcopies kv hkv).1 s hs).2
+
+theorem WInv.of_wf {w : World} (h : Closed w (fun o => o < w.objs.length) (fun c => c < w.cells.length))
+    (ho : OwnWatchers w) : WInv w := by
+  refine ⟨fun i ob hi hob => Obj.refsIn_mono (fun _ h => h) (fun _ _ => trivial) (h i ob hi hob), ?_, ho⟩
+  intro i ob hob c hc
+  have hi : i < w.objs.length := by
+    rcases Nat.lt_or_ge i w.objs.length with h1 | h1
+    · exact h1
+    · rw [List.getElem?_eq_none h1] at hob; simp at hob
+  exact refsIn_hasCell (C := fun c => c < w.cells.length) (h i ob hi hob) hc
+
+/-- a set of list references can be cut down to the lists that exist -/
+theorem Closed.inter_bounded {w : World} {S C : Nat → Prop} (h : Closed w S C) (hb : CellsBounded w) :
+    Closed w S (fun c => C c ∧ c < w.cells.length) := by
+  intro i ob hi hob
+  have r := h i ob hi hob
+  have hv : ∀ v : Val, v.inSets S C → (∀ c, v = .cell c → c < w.cells.length) →
+      v.inSets S (fun c => C c ∧ c < w.cells.length) := by
+    intro v h1 h2
+    cases v with
+    | none => trivial
+    | int n => trivial
+    | cell c => exact ⟨h1, h2 c rfl⟩
+    | obj o => exact h1
+  refine ⟨fun kv hkv => hv _ (r.values kv hkv) (fun c hc => hb i ob hob c (Or.inl ⟨kv, hkv, hc⟩)),
+    fun kv hkv => hv _ (r.attrs kv hkv) (fun c hc => hb i ob hob c (Or.inr (Or.inl ⟨kv, hkv, hc⟩))),
+    r.watchers, r.dyn, fun kv hkv => ⟨fun s hs => ?_, (r.pcopies kv hkv).2⟩⟩
+  exact ⟨⟨((r.pcopies kv hkv).1 s hs).1, hb i ob hob s.1 (Or.inr (Or.inr ⟨kv, hkv, s, hs, Or.inl rfl⟩))⟩,
+         ⟨((r.pcopies kv hkv).1 s hs).2, hb i ob hob s.2 (Or.inr (Or.inr ⟨kv, hkv, s, hs, Or.inr rfl⟩))⟩⟩
+
+theorem Closed.mono {w : World} {S C C' : Nat → Prop} (h : Closed w S C) (hC : ∀ c, C c → C' c) : Closed w S C' :=
+  fun i ob hi hob => Obj.refsIn_mono (fun _ h => h) hC (h i ob hi hob)
+
+/-- the image of a set under an offset -/
+def shifted (S : Nat → Prop) (k : Nat) : Nat → Prop := fun x => ∃ x0, S x0 ∧ x = k + x0
+
+theorem renWatcher_image {S : Nat → Prop} {no np : Nat} {wt : Watcher} (h : wt.inSet S) :
+    (renWatcher no np wt).inSet (shifted S no) := by
+  refine ⟨⟨_, h.1, rfl⟩, ⟨_, h.2.1, rfl⟩, ?_⟩
+  intro cb hcb
+  simp only [renWatcher, renCaller] at hcb
+  cases hc : wt.fn.callback with
+  | none => simp [hc] at hcb
+  | some c => simp [hc] at hcb; rw [← hcb]; exact ⟨_, h.2.2 c hc, rfl⟩
+
+theorem renVal_image {S C : Nat → Prop} {no nc : Nat} {v : Val} (h : v.inSets S C) :
+    (renVal no nc v).inSets (shifted S no) (shifted C nc) := by
+  cases v with
+  | none => trivial
+  | int n => trivial
+  | cell c => exact ⟨c, h, rfl⟩
+  | obj o => exact ⟨o, h, rfl⟩
+
+theorem renObj_image {S C : Nat → Prop} {no nc np : Nat} {ob : Obj} (h : ob.refsIn S C) :
+    (renObj no nc np ob).refsIn (shifted S no) (shifted C nc) := by
+  refine ⟨?_, ?_, ?_, ?_, ?_⟩
+  · intro kv hkv
+    simp only [renObj, List.mem_map] at hkv
+    obtain ⟨kv0, hkv0, rfl⟩ := hkv
+    exact renVal_image (h.values kv0 hkv0)
+  · intro kv hkv
+    simp only [renObj, List.mem_map] at hkv
+    obtain ⟨kv0, hkv0, rfl⟩ := hkv
+    exact renVal_image (h.attrs kv0 hkv0)
+  · intro kv hkv wt hwt
+    simp only [renObj, List.mem_map] at hkv
+    obtain ⟨kv0, hkv0, rfl⟩ := hkv
+    simp only [List.mem_map] at hwt
+    obtain ⟨wt0, hwt0, rfl⟩ := hwt
+    exact renWatcher_image (h.watchers kv0 hkv0 wt0 hwt0)
+  · intro kv hkv wt hwt
+    simp only [renObj, List.mem_map] at hkv
+    obtain ⟨kv0, hkv0, rfl⟩ := hkv
+    simp only [List.mem_map] at hwt
+    obtain ⟨wt0, hwt0, rfl⟩ := hwt
+    exact renWatcher_image (h.dyn kv0 hkv0 wt0 hwt0)
+  · intro kv hkv
+    simp only [renObj, List.mem_map] at hkv
+    obtain ⟨kv0, hkv0, rfl⟩ := hkv
+    refine ⟨?_, ?_⟩
+    · intro s hs
+      cases h0 : kv0.2.slots with
+      | none => simp [renPCopy, h0] at hs
+      | some s0 =>
+        simp [renPCopy, h0] at hs; subst hs
+        exact ⟨⟨_, ((h.pcopies kv0 hkv0).1 s0 h0).1, rfl⟩, ⟨_, ((h.pcopies kv0 hkv0).1 s0 h0).2, rfl⟩⟩
+    · intro wt hwt
+      simp only [renPCopy, List.mem_map] at hwt
+      obtain ⟨wt0, hwt0, rfl⟩ := hwt
+      exact renWatcher_image ((h.pcopies kv0 hkv0).2 wt0 hwt0)
+
+/-- the world after a copy made by the current `__setstate__` (`copyGraph_unbound_eq`) -/
+def copyWorld (w : World) : World :=
+  { w with objs := w.objs ++ w.objs.map (renObj w.objs.length w.cells.length w.nextPid),
+           cells := w.cells ++ w.cells, nextPid := w.nextPid + w.nextPid }
+
+theorem copyWorld_objs {w : World} {i : Nat} {ob' : Obj} (h : (copyWorld w).objs[i]? = some ob') :
+    (i < w.objs.length ∧ w.objs[i]? = some ob') ∨
+    (∃ ob, w.objs.length ≤ i ∧ w.objs[i - w.objs.length]? = some ob ∧
+      ob' = renObj w.objs.length w.cells.length w.nextPid ob) := by
+  simp only [copyWorld] at h
+  rcases Nat.lt_or_ge i w.objs.length with hlt | hge
+  · rw [List.getElem?_append_left hlt] at h; exact Or.inl ⟨hlt, h⟩
+  · rw [List.getElem?_append_right hge, List.getElem?_map] at h
+    cases ho : w.objs[i - w.objs.length]? with
+    | none => simp [ho] at h
+    | some ob => simp [ho] at h; exact Or.inr ⟨ob, hge, rfl, h.symm⟩
+
+/-- the separation invariant after a copy of a world with `N` objects: `Hi` are the lists of the copy's side -/
+structure Sep (N : Nat) (w : World) (Hi : Nat → Prop) : Prop where
+  inv : WInv w
+  objs : N ≤ w.objs.length
+  lo : Closed w (fun o => o < N) (fun c => ¬ Hi c)
+  hi : Closed w (fun o => N ≤ o) Hi
+  bnd : ∀ c, Hi c → c < w.cells.length
+
+/-- **the copy of a world satisfying the invariant satisfies it, and its two halves are separated** -/
+theorem copyWorld_sep {w : World} (hi : WInv w) :
+    Sep w.objs.length (copyWorld w) (fun c => w.cells.length ≤ c ∧ c < w.cells.length + w.cells.length) := by
+  have hwf := hi.wf
+  have hlenO : (copyWorld w).objs.length = w.objs.length + w.objs.length := by simp [copyWorld]
+  have hlenC : (copyWorld w).cells.length = w.cells.length + w.cells.length := by simp [copyWorld]
+  have hnew : ∀ (i : Nat) (ob : Obj), w.objs[i - w.objs.length]? = some ob → w.objs.length ≤ i →
+      (renObj w.objs.length w.cells.length w.nextPid ob).refsIn
+        (fun o => w.objs.length ≤ o ∧ o < w.objs.length + w.objs.length)
+        (fun c => w.cells.length ≤ c ∧ c < w.cells.length + w.cells.length) := by
+    intro i ob hob _
+    have hlt : i - w.objs.length < w.objs.length := by
+      rcases Nat.lt_or_ge (i - w.objs.length) w.objs.length with h1 | h1
+      · exact h1
+      · rw [List.getElem?_eq_none h1] at hob; simp at hob
+    refine Obj.refsIn_mono ?_ ?_ (renObj_image (hwf _ ob hlt hob))
+    · rintro o ⟨o0, h0, rfl⟩; exact ⟨by omega, by omega⟩
+    · rintro c ⟨c0, h0, rfl⟩; exact ⟨by omega, by omega⟩
+  refine ⟨WInv.of_wf ?_ ?_, by rw [hlenO]; omega, ?_, ?_, ?_⟩
+  · intro i ob' _ hob'
+    rw [hlenO, hlenC]
+    rcases copyWorld_objs hob' with ⟨hlt, hob⟩ | ⟨ob, hge, hob, rfl⟩
+    · exact Obj.refsIn_mono (fun o (h : o < w.objs.length) => by omega) (fun c (h : c < w.cells.length) => by omega)
+        (hwf i ob' hlt hob)
+    · exact Obj.refsIn_mono (fun o h => h.2) (fun c h => h.2) (hnew i ob hob hge)
+  · intro i ob' hob' kv hkv wt hwt
+    rcases copyWorld_objs hob' with ⟨_, hob⟩ | ⟨ob, hge, hob, rfl⟩
+    · exact hi.own i ob' hob kv hkv wt hwt
+    · simp only [renObj, List.mem_map] at hkv
+      obtain ⟨kv0, hkv0, rfl⟩ := hkv
+      simp only [List.mem_map] at hwt
+      obtain ⟨wt0, hwt0, rfl⟩ := hwt
+      have := hi.own _ ob hob kv0 hkv0 wt0 hwt0
+      simp only [renWatcher, this]; omega
+  · intro i ob' hlt hob'
+    rcases copyWorld_objs hob' with ⟨_, hob⟩ | ⟨ob, hge, _, _⟩
+    · exact Obj.refsIn_mono (fun _ h => h) (fun c (h : c < w.cells.length) => by omega) (hwf i ob' hlt hob)
+    · omega
+  · intro i ob' hge hob'
+    rcases copyWorld_objs hob' with ⟨hlt, _⟩ | ⟨ob, _, hob, rfl⟩
+    · omega
+    · exact Obj.refsIn_mono (fun o h => h.1) (fun _ h => h) (hnew i ob hob hge)
+  · intro c hc; rw [hlenC]; exact hc.2
+
+theorem Arg.inSets_mono {w : World} {S S' C C' : Nat → Prop} (hS : ∀ o, S o → S' o)
+    (hC : C w.cells.length → C' w.cells.length) {a : Arg} (h : a.inSets w S C) : a.inSets w S' C' := by
+  cases a with
+  | none => trivial
+  | int n => trivial
+  | newList l => exact hC h
+  | obj o => exact hS o h
+
+theorem kvsIn_mono {S S' C C' : Nat → Prop} (hS : ∀ o, S o → S' o) : ∀ {kvs : List (String × Arg)},
+    kvsIn S C kvs → kvsIn S' C' kvs
+  | [], _ => trivial
+  | (p, a) :: rest, h => by
+    refine ⟨?_, kvsIn_mono hS h.2⟩
+    have h1 := h.1
+    cases a with
+    | obj o => exact hS o h1
+    | none => trivial
+    | int n => trivial
+    | newList l => trivial
+
+theorem Op.inSets_mono {w : World} {S S' C C' : Nat → Prop} (hS : ∀ o, S o → S' o)
+    (hC : C w.cells.length → C' w.cells.length) {op : Op} (h : op.inSets w S C) : op.inSets w S' C' := by
+  cases op with
+  | new cls kw => exact h
+  | set o p a => exact ⟨hS o h.1, Arg.inSets_mono hS hC h.2⟩
+  | mutate o p n => exact hS o h
+  | pedit o p e => exact hS o h
+  | setAttr o name a => exact ⟨hS o h.1, Arg.inSets_mono hS hC h.2⟩
+  | mutAttr o name n => exact hS o h
+  | watch o p t cb => exact ⟨hS o h.1, hS t h.2⟩
+  | selAdd o p n => exact hS o h
+  | watchPartial o p t cb => exact ⟨hS o h.1, hS t h.2⟩
+  | watchSlot o p t cb => exact ⟨hS o h.1, hS t h.2⟩
+  | update o kvs => exact ⟨hS o h.1, kvsIn_mono hS h.2⟩
+
+/-- an operation of the sets `S`/`C` never is a construction, and names existing objects when `S` does -/
+theorem Op.inWorld_of_inSets {w : World} {S C : Nat → Prop} {op : Op} (hS : ∀ o, S o → o < w.objs.length)
+    (h : op.inSets w S C) : op.inWorld w := by
+  have := Op.inSets_mono (C' := fun _ => True) hS (fun _ => trivial) h
+  cases op with
+  | new cls kw => exact absurd h (by simp [Op.inSets])
+  | _ => exact this
+
+/-- **one step on the original's side** (its object and arguments are original objects and lists that are not the
+copy's): the copy's objects and the copy's lists are exactly as before, every method it invokes belongs to an
+original object, and the two sides stay separated -/
+theorem Sep.step_orig {N : Nat} {w w1 : World} {Hi : Nat → Prop} {op : Op} (s : Sep N w Hi)
+    (hop : op.inSets w (fun o => o < N) (fun c => ¬ Hi c)) (h : step w op = .ok w1) :
+    Sep N w1 Hi ∧ (∀ i : Nat, N ≤ i → w1.objs[i]? = w.objs[i]?) ∧ (∀ c : Nat, Hi c → w1.cells[c]? = w.cells[c]?) ∧
+    ∃ added, w1.log = w.log ++ added ∧ ∀ e ∈ added, e.1 < N := by
+  have hf : Fresh w (fun c => ¬ Hi c) := fun n hn hh => by have := s.bnd n hh; omega
+  have g := step_good s.lo hf hop h
+  have hobj : ∀ i : Nat, N ≤ i → w1.objs[i]? = w.objs[i]? := fun i hi => g.loc.objsFrame i (by simp; exact hi)
+  have hin : op.inWorld w := Op.inWorld_of_inSets (fun o (ho : o < N) => Nat.lt_of_lt_of_le ho s.objs) hop
+  refine ⟨⟨step_inv s.inv hin h, Nat.le_trans s.objs g.loc.objsLen, g.closed, ?_,
+    fun c hc => Nat.lt_of_lt_of_le (s.bnd c hc) g.loc.cellsLen⟩, hobj,
+    fun c hc => g.loc.cellsFrame c (by simp; exact hc), g.loc.logPrefix⟩
+  intro i ob hi hob
+  rw [hobj i hi] at hob
+  exact s.hi i ob hi hob
+
+/-- **one step on the copy's side**: the original objects and every existing list that is not the copy's are exactly
+as before, every method it invokes belongs to an object of the copy, and the two sides stay separated — the lists the
+step created now belong to the copy -/
+theorem Sep.step_copy {N : Nat} {w w1 : World} {Hi : Nat → Prop} {op : Op} (s : Sep N w Hi)
+    (hop : op.inSets w (fun o => N ≤ o ∧ o < w.objs.length) (fun c => Hi c ∨ w.cells.length ≤ c))
+    (h : step w op = .ok w1) :
+    Sep N w1 (fun c => (Hi c ∨ w.cells.length ≤ c) ∧ c < w1.cells.length) ∧
+    (∀ i : Nat, i < N → w1.objs[i]? = w.objs[i]?) ∧
+    (∀ c : Nat, c < w.cells.length → ¬ Hi c → w1.cells[c]? = w.cells[c]?) ∧
+    ∃ added, w1.log = w.log ++ added ∧ ∀ e ∈ added, N ≤ e.1 := by
+  have hop' : op.inSets w (fun o => N ≤ o) (fun c => Hi c ∨ w.cells.length ≤ c) :=
+    Op.inSets_mono (fun o ho => ho.1) (fun h => h) hop
+  have g := step_good (s.hi.mono (fun c hc => Or.inl hc)) (fun n hn => Or.inr hn) hop' h
+  have hobj : ∀ i : Nat, i < N → w1.objs[i]? = w.objs[i]? := fun i hi => g.loc.objsFrame i (by simp; exact hi)
+  have hin : op.inWorld w := Op.inWorld_of_inSets (fun o ho => ho.2) hop
+  have hi1 := step_inv s.inv hin h
+  refine ⟨⟨hi1, Nat.le_trans s.objs g.loc.objsLen, ?_, g.closed.inter_bounded hi1.cellsIn, fun c hc => hc.2⟩, hobj,
+    fun c hc hn => g.loc.cellsFrame c (by intro hh; rcases hh with h1 | h1; exact hn h1; omega), g.loc.logPrefix⟩
+  intro i ob hi hob
+  rw [hobj i hi] at hob
+  refine Obj.refsIn_mono (fun _ h => h) ?_ ((s.lo.inter_bounded s.inv.cellsIn) i ob hi hob)
+  intro c hc hh
+  rcases hh.1 with h1 | h1
+  · exact hc.1 h1
+  · omega
+
+/-- a history after the copy in which operations on the original (`false`) and on the copy (`true`) alternate at
+will; the third and fifth argument say which lists belong to the copy before and after -/
+inductive Interleaved (N : Nat) : World → (Nat → Prop) → List (Bool × Op) → World → (Nat → Prop) → Prop
+  | done (w : World) (Hi : Nat → Prop) : Interleaved N w Hi [] w Hi
+  | orig {w w1 w2 : World} {Hi Hi2 : Nat → Prop} {op : Op} {rest : List (Bool × Op)} :
+      op.inSets w (fun o => o < N) (fun c => ¬ Hi c) → step w op = .ok w1 →
+      Interleaved N w1 Hi rest w2 Hi2 → Interleaved N w Hi ((false, op) :: rest) w2 Hi2
+  | copy {w w1 w2 : World} {Hi Hi2 : Nat → Prop} {op : Op} {rest : List (Bool × Op)} :
+      op.inSets w (fun o => N ≤ o ∧ o < w.objs.length) (fun c => Hi c ∨ w.cells.length ≤ c) → step w op = .ok w1 →
+      Interleaved N w1 (fun c => (Hi c ∨ w.cells.length ≤ c) ∧ c < w1.cells.length) rest w2 Hi2 →
+      Interleaved N w Hi ((true, op) :: rest) w2 Hi2
+
+/-- **the separation survives every interleaving** — so `Sep.step_orig` / `Sep.step_copy` apply at every point of it -/
+theorem Sep.interleaved {N : Nat} {w w2 : World} {Hi Hi2 : Nat → Prop} {tops : List (Bool × Op)}
+    (s : Sep N w Hi) (h : Interleaved N w Hi tops w2 Hi2) : Sep N w2 Hi2 := by
+  induction h with
+  | done w Hi => exact s
+  | orig hop hst _ ih => exact ih (s.step_orig hop hst).1
+  | copy hop hst _ ih => exact ih (s.step_copy hop hst).1
+
+/-- the methods an interleaved history invokes, per side, and the objects it leaves alone: operations on the original
+invoke methods of original objects only, operations on the copy methods of the copy only (the log grows by the entries
+of each operation in turn) -/
+theorem Sep.interleaved_log {N : Nat} {w w2 : World} {Hi Hi2 : Nat → Prop} {tops : List (Bool × Op)}
+    (s : Sep N w Hi) (h : Interleaved N w Hi tops w2 Hi2) :
+    ∃ added : List (Bool × (Nat × String)), w2.log = w.log ++ added.map (·.2) ∧
+      (∀ e ∈ added, if e.1 then N ≤ e.2.1 else e.2.1 < N) ∧
+      ((∀ t ∈ tops, t.1 = true) → ∀ i : Nat, i < N → w2.objs[i]? = w.objs[i]?) ∧
+      ((∀ t ∈ tops, t.1 = false) → ∀ i : Nat, N ≤ i → w2.objs[i]? = w.objs[i]?) := by
+  induction h with
+  | done w Hi => exact ⟨[], by simp, by simp, fun _ _ _ => rfl, fun _ _ _ => rfl⟩
+  | orig hop hst _ ih =>
+    obtain ⟨s1, ho, _, added1, hl1, ha1⟩ := s.step_orig hop hst
+    obtain ⟨added2, hl2, ha2, hc2, ho2⟩ := ih s1
+    refine ⟨added1.map (fun e => (false, e)) ++ added2, ?_, ?_, ?_, ?_⟩
+    · rw [hl2, hl1]; simp [List.map_append, Function.comp_def]
+    · intro e he
+      rcases List.mem_append.1 he with he | he
+      · simp only [List.mem_map] at he
+        obtain ⟨e0, he0, rfl⟩ := he
+        simpa using ha1 e0 he0
+      · exact ha2 e he
+    · intro hall; have := hall _ List.mem_cons_self; simp at this
+    · intro hall i hi
+      rw [ho2 (fun t ht => hall t (by simp [ht])) i hi, ho i hi]
+  | copy hop hst _ ih =>
+    obtain ⟨s1, ho, _, added1, hl1, ha1⟩ := s.step_copy hop hst
+    obtain ⟨added2, hl2, ha2, hc2, ho2⟩ := ih s1
+    refine ⟨added1.map (fun e => (true, e)) ++ added2, ?_, ?_, ?_, ?_⟩
+    · rw [hl2, hl1]; simp [List.map_append, Function.comp_def]
+    · intro e he
+      rcases List.mem_append.1 he with he | he
+      · simp only [List.mem_map] at he
+        obtain ⟨e0, he0, rfl⟩ := he
+        simpa using ha1 e0 he0
+      · exact ha2 e he
+    · intro hall i hi
+      rw [hc2 (fun t ht => hall t (by simp [ht])) i hi, ho i hi]
+    · intro hall; have := hall _ List.mem_cons_self; simp at this
 
 end ParamVerif.Copy
